@@ -1,11 +1,171 @@
+import TinsModel.Ack.Model
+import TinsModel.Ack.Spec
 import Driver.Util
-/- line-protocol driver for property C19 (stub until the area is built) -/
+/- line-protocol driver for AckTracker (property C19): model mode and spec (oracle) mode.
+   ops: init <ack> <0|1> | finit <ack> | new | usesack | pkt <ack> [-|edges..] | pktw <ack> [-|edges..] | pktn | opt <ack> <hex>
+        | q <seq> <len>            (numbers are absolute positions; the model reduces them mod 2^32) -/
 namespace Driver.C19
-open Driver
+open Tins Tins.Ack Driver
 
-def step (st : Unit) (_line : String) : Unit × String := (st, "unimplemented")
-def specStep (st : Unit) (_line : String) : Unit × String := (st, "unimplemented")
-def initModel : Unit := ()
-def initSpec : Unit := ()
+def showIvs (s : ISet) : String := joinWith "," (s.map (fun i => s!"{i.lo}-{i.hi}"))
+
+def showState (t : Tracker) : String := s!"ack={t.ack} ivs={showIvs t.ivs}"
+
+def insertSorted (x : Nat) : List Nat → List Nat
+  | [] => [x]
+  | y :: r => if x < y then x :: y :: r else if x = y then y :: r else y :: insertSorted x r
+
+/-- grid points: ack-1, ack, ack+1; lo-1, lo, hi, hi+1 of the first two and last two intervals; 2^32-1 and 0 -/
+def gridPoints (ack : Nat) (ivs : List (Nat × Nat)) : List Nat :=
+  let n := ivs.length
+  let sel := (ivs.zipIdx).filter (fun (_, i) => i < 2 || i + 2 ≥ n)
+  let raw := [ack + 4294967295, ack, ack + 1] ++
+    sel.flatMap (fun (iv, _) => [iv.1 + 4294967295, iv.1, iv.2, iv.2 + 1]) ++ [4294967295, 0]
+  raw.foldl (fun acc x => insertSorted (wrap32 x) acc) []
+
+/-- the (seq,len) queries of the grid, in output order -/
+def gridQueries (ack : Nat) (ivs : List (Nat × Nat)) : List (Nat × Nat) :=
+  let p := gridPoints ack ivs
+  p.flatMap (fun s => p.filterMap (fun e =>
+    let len := sub32 e s + 1
+    if len > 2147483648 then none else some (s, len)))
+
+def showGrid (t : Tracker) : String :=
+  String.ofList ((gridQueries t.ack (t.ivs.map (fun i => (i.lo, i.hi)))).map
+    (fun (s, n) => if isSegmentAcked t s n then '1' else '0'))
+
+def parseEdges : List String → Option (Option (List Nat))
+  | [] => some none
+  | ["-"] => some (some [])
+  | ws => (ws.mapM String.toNat?).map (fun es => some (es.map wrap32))
+
+def packet (tag : String) (t : Tracker) (ack : Nat) (sack : SackOpt) : Tracker × String :=
+  let (t', thrown) := processPacket t (wrap32 ack) sack
+  if thrown then (t', s!"throw malformed_option {showState t'}")
+  else (t', s!"{tag} {showState t'} grid={showGrid t'}")
+
+def step (t : Tracker) (line : String) : Tracker × String :=
+  match words line with
+  | "init" :: a :: s :: _ => match a.toNat? with
+    | some k => let t' := Tracker.init (wrap32 k) (s == "1"); (t', s!"init {showState t'}")
+    | none => (t, "bad-op")
+  | "finit" :: a :: _ => match a.toNat? with
+    -- Flow::update_state builds `AckTracker(ack_seq)` (use_sack defaults to true); the same packet is then processed
+    | some k => let t' := (processPacket (Tracker.init (wrap32 k) true) (wrap32 k) .absent).1; (t', s!"finit {showState t'}")
+    | none => (t, "bad-op")
+  | "new" :: _ => (Tracker.default, s!"new {showState Tracker.default}")
+  | "usesack" :: _ => let t' := { t with useSack := true }; (t', s!"usesack {showState t'}")
+  | "pkt" :: a :: es => match a.toNat?, parseEdges es with
+    | some k, some e => if es.length > 60 then (t, "bad-op") else
+      packet "pkt" t k (match e with | none => .absent | some l => decodeSack (encodeEdges l))
+    | _, _ => (t, "bad-op")
+  | "pktw" :: a :: es => match a.toNat?, parseEdges es with
+    | some k, some e => if es.length > 8 || es == ["-"] then (t, "bad-op") else
+      packet "pktw" t k (match e with | none => .absent | some l => decodeSack (encodeEdges l))
+    | _, _ => (t, "bad-op")
+  | "pktn" :: _ => (t, s!"pktn {showState t} grid={showGrid t}")
+  | "opt" :: a :: h :: _ => match a.toNat?, parseHex h with
+    | some k, some d => if d.length > 255 then (t, "bad-op") else packet "opt" t k (decodeSack d)
+    | _, _ => (t, "bad-op")
+  | "q" :: s :: n :: _ => match s.toNat?, n.toNat? with
+    | some s, some n =>
+      (t, s!"q {showState t} acked={if isSegmentAcked t (wrap32 s) (wrap32 n) then "1" else "0"}")
+    | _, _ => (t, "bad-op")
+  | _ => (t, "bad-op")
+
+def initModel : Tracker := Tracker.default
+
+/-! ### oracle -/
+open Tins.Ack.Spec
+
+structure OState where
+  A : Nat := 0
+  seen : List Blk := []
+  sackOn : Bool := false
+  specified : Bool := false
+
+def kv (ws : List String) (key : String) : Option String :=
+  ws.findSome? (fun w => if w.startsWith (key ++ "=") then some ((w.drop (key.length + 1)).toString) else none)
+
+def parseIvs (s : String) : Option (List (Nat × Nat)) :=
+  if s == "" then some [] else
+  (s.splitOn ",").mapM (fun item => match item.splitOn "-" with
+    | [a, b] => do let a ← a.toNat?; let b ← b.toNat?; pure (a, b)
+    | _ => none)
+
+def pairs : List Nat → Option (List Blk)
+  | [] => some []
+  | l :: r :: rest => (pairs rest).map (fun t => (l, r) :: t)
+  | [_] => none
+
+/-- the grid answers of the implementation against the set-of-acknowledged-bytes definition -/
+def gridVerdict (st : OState) (ack : Nat) (ivs : List (Nat × Nat)) (bits : String) : String :=
+  let qs := gridQueries ack ivs
+  let bs := bits.toList
+  if qs.length != bs.length then "unparsable-output grid-length" else
+  match (qs.zip bs).find? (fun ((s, n), b) =>
+      match unwrapNear st.A s with
+      | none => false
+      | some sa => queryInDomain st.A sa n && (segAckedFast st.A st.seen sa n != (b == '1'))) with
+  | some ((s, n), b) => s!"segment-acked seq={s} len={n} impl={b}"
+  | none => ""
+
+def judgeState (st : OState) (ow : List String) (grid : Bool) : String :=
+  match (kv ow "ack").bind (·.toNat?), (kv ow "ivs").bind parseIvs with
+  | some ack, some ivs =>
+    let v := stateVerdict st.A st.seen ack ivs
+    if v != "" then s!"violates {v}" else
+    if grid then
+      match kv ow "grid" with
+      | some bits => let g := gridVerdict st ack ivs bits; if g != "" then s!"violates {g}" else "ok"
+      | none => "violates unparsable-output"
+    else "ok"
+  | _, _ => "violates unparsable-output"
+
+/-- spec mode: each input line is `<op> ||| <implementation output>` -/
+def specStep (st : OState) (line : String) : OState × String :=
+  match line.splitOn " ||| " with
+  | [op, out] =>
+    let ow := words out
+    let unspec : OState := { st with specified := false }
+    match words op with
+    | ["init", a, s] => match a.toNat? with
+      | some k => let st' : OState := { A := k, seen := [], sackOn := s == "1", specified := true }
+                  (st', judgeState st' ow false)
+      | none => (unspec, "unspecified")
+    | ["finit", a] => match a.toNat? with
+      | some k => let st' : OState := { A := k, seen := [], sackOn := true, specified := true }
+                  (st', judgeState st' ow false)
+      | none => (unspec, "unspecified")
+    | ["new"] => let st' : OState := { A := 0, seen := [], sackOn := false, specified := true }
+                 (st', judgeState st' ow false)
+    | ["usesack"] => let st' := { st with sackOn := true }
+                     (st', if st'.specified then judgeState st' ow false else "unspecified")
+    | "pktn" :: _ => (st, if st.specified then judgeState st ow true else "unspecified")
+    | "q" :: s :: n :: _ => match s.toNat?, n.toNat? with
+      | some s, some n =>
+        if st.specified && n < 4294967296 && queryInDomain st.A s n then
+          match kv ow "acked" with
+          | some b => if segAckedFast st.A st.seen s n == (b == "1") then (st, "ok")
+                      else (st, s!"violates segment-acked seq={s} len={n} impl={b}")
+          | none => (st, "violates unparsable-output")
+        else (st, "unspecified")
+      | _, _ => (st, "unspecified")
+    | kind :: a :: es =>
+      if (kind == "pkt" || kind == "pktw") && st.specified then
+        match a.toNat?, (if es == ["-"] then some [] else es.mapM String.toNat?).bind pairs with
+        | some k, some blocks =>
+          let pkt : Pkt := ⟨k, blocks⟩
+          -- with SACK processing off the observer is only told the cumulative ACK
+          if pktOK st.A st.seen pkt then
+            let st' := { st with A := k, seen := if st.sackOn then st.seen ++ blocks else st.seen }
+            (st', judgeState st' ow true)
+          else (unspec, "unspecified")
+        | _, _ => (unspec, "unspecified")
+      else (unspec, "unspecified")
+    | _ => (unspec, "unspecified")
+  | _ => (st, "bad-line")
+
+def initSpec : OState := {}
 
 end Driver.C19
